@@ -5,6 +5,7 @@ import SycVerif.Driver.Reactive
 import SycVerif.Driver.ListMapDrv
 import SycVerif.Driver.SsrDrv
 import SycVerif.Driver.AsyncDrv
+import SycVerif.Driver.AssrDrv
 import SycVerif.Driver.DomDrv
 import SycVerif.Driver.ViewDrv
 /-! Native driver: one request per line on stdin (`<engine> <op> <args…>`), one reply per line. -/
@@ -16,6 +17,7 @@ def dispatch (line : String) : String :=
   if line.startsWith "hydrate run " then ViewDrv.handleHydrate (line.drop 12).toString else
   if line.startsWith "view run " then ViewDrv.handle (line.drop 9).toString else
   if line.startsWith "async " then AsyncDrv.handle (line.drop 6).toString else
+  if line.startsWith "assr " then AssrDrv.handle (line.drop 5).toString else
   if line.startsWith "ssr " then SsrDrv.handle ("(" ++ (line.drop 4).toString ++ ")") else
   if line.startsWith "reactive run " then ReactiveDrv.handle (line.drop 13).toString else
   match line.splitOn " " with
